@@ -1,14 +1,47 @@
 (* Props/C05.v — property C05 (XMI half): loading depends on what a document says, not on how it is laid out.
-   Only the property theorems (closed by `exact`), Print Assumptions and non-vacuity examples. *)
+   Only the property theorems (closed by `exact`), Print Assumptions and non-vacuity examples.
+   parse_flt (float(str)) is universally quantified in every statement. *)
 From Cassis Require Import Base Heap Schema Canon Lex XmiDoc XmiLoad XmiLoadProofs.
 Open Scope Z_scope.
 
 (* The declarative meaning of a closed document (ids distinct, references resolvable) whose elements carry no attribute
    twice is the same for every presentation of it: any sequence of element permutations (forward references, sofas and
    views anywhere), attribute permutations and omissions of member-less View elements.  Every presentation is again a
-   closed document.  For every float lexer parse_flt. *)
+   closed document. *)
 Theorem C05_denote_xmi_presentation_invariant : forall parse_flt s d d',
   doc_ok_xmi parse_flt s d = true -> attrs_nodupb d = true -> presentation_equiv d d' ->
   denote_xmi parse_flt s d' = denote_xmi parse_flt s d /\ doc_ok_xmi parse_flt s d' = true /\ attrs_nodupb d' = true.
 Proof. exact denote_xmi_presentation_invariant. Qed.
 Print Assumptions C05_denote_xmi_presentation_invariant.
+
+(* load_xmi_is_denotation, per feature kind.  For an element of an ordinary (non-array) type and every declared feature
+   other than the sofa reference of an annotation: the value the reader's first pass leaves in the slot (raw attribute,
+   int() of begin/end, wrapped child elements), post-processed by the branch chain of the second pass with references
+   resolved through the id-keyed dict, reads back as exactly what the denotation decodes from the element for that
+   feature - for primitive, string-collection, token-collection, byte-array, id-collection and reference features alike.
+   deref_ok is the global fact: a pointer taken from the dict for id i reads back as i (null for cas:NULL). *)
+Theorem C05_load_xmi_is_denotation_partial_feature : forall parse_flt s sofas fss views objs e ti o fd v1 c,
+  sch_find s (reader_tname (x_ns e) (x_tag e)) = Some ti -> ti_okb s ti = true -> elem_okb s e = true ->
+  is_array_name (ti_name ti) = false -> In fd (ti_feats ti) ->
+  String.eqb (fd_name fd) "sofa" && memb T_ANNOTATION_BASE (ti_anc ti) = false ->
+  deref_ok fss objs ->
+  parse_fs parse_flt s e = Ok o ->
+  post_feature parse_flt s sofas fss ti fd (lslot o (fd_name fd)) = Ok v1 ->
+  dec_feature parse_flt s (fun z => z) false e fd = Ok c ->
+  cv views objs v1 = Ok c.
+Proof. exact reader_feature_is_denotation. Qed.
+Print Assumptions C05_load_xmi_is_denotation_partial_feature.
+
+(* the same for an array stored as an element of its own (StringArray with child elements or the empty attribute,
+   primitive arrays as tokens, ByteArray as hex digits, FSArray as ids with 0 for null) *)
+Theorem C05_load_xmi_is_denotation_partial_array : forall parse_flt s sofas fss views objs e ti o fd k v1 c,
+  sch_find s (reader_tname (x_ns e) (x_tag e)) = Some ti -> ti_okb s ti = true -> elem_okb s e = true ->
+  is_primitive s T_TOP = false ->
+  is_array_name (ti_name ti) = true -> coll_kind (ti_name ti) = Some k -> ti_feats ti = [fd] ->
+  deref_ok fss objs ->
+  parse_fs parse_flt s e = Ok o ->
+  post_feature parse_flt s sofas fss ti fd (lslot o (fd_name fd)) = Ok v1 ->
+  dec_coll parse_flt k e "elements" = Ok c ->
+  cv views objs v1 = Ok (match c with Some l => CColl "" l | None => CNull end).
+Proof. exact reader_elements_is_denotation. Qed.
+Print Assumptions C05_load_xmi_is_denotation_partial_array.
